@@ -46,6 +46,16 @@
  * Race oracle: the same bodies, free running (no scheduler), built with
  *   -fsanitize=thread (bin/C20_tsan), many repetitions; any TSan report is a violation.
  *   Harness T's configurations are all run once there, too.
+ *   Pass S (added for seed C20 round 6): T's configurations with an irregular timestamp once
+ *   more, the third thread calling vbi_channel_switched() continuously while the feed runs
+ *   (see A_t3_many).  The seed tested the countdown in vbi_decode()'s frame dropping branch
+ *   before locking chswcd_mutex: an unlocked read racing with the requests' store, visible to
+ *   a happens-before detector only when a request falls between two critical sections of the
+ *   feeding thread around the one irregular frame.
+ * Countdown step oracle (A, T, every schedule; added for seed C20 round 6): see cd_on_op().
+ *   The scheduling point at pthread_mutex_lock lies between the seed's unlocked test and its
+ *   store, so the schedule "T1 up to the lock of an irregular frame, T3's request, T1 stores
+ *   40" (one preemption, within T's bound) shows the lost request.
  *   A serialising scheduler's hand-offs are happens-before edges that blind a race
  *   detector, hence the separate pass; it is a sample of schedules, not exhaustive.
  */
@@ -306,6 +316,7 @@ static int       t2_fetch_failed;
  * pages were completed while the countdown was running, the countdown when T1 finished */
 static int       t1_cd_acq, t1_pages_in_countdown, t1_end_chswcd;
 
+static int t1_done;                      /* free running pass S: the switcher stops with the feed */
 static void A_t1(void *arg)
 {
         (void) arg;
@@ -320,6 +331,7 @@ static void A_t1(void *arg)
                         if (V->wss_rep_ct != 77 && l == 0) trips |= 1u << i;
                 }
         if (sc_self() >= 0) t1_end_chswcd = V->chswcd;       /* scheduled runs only: unlocked read */
+        __atomic_store_n(&t1_done, 1, __ATOMIC_RELEASE);
 }
 static void A_t2(void *arg)
 {
@@ -335,6 +347,17 @@ static void A_t3(void *arg)
         (void) arg;
         vbi_channel_switched(V, 0);
 }
+/* free running pass S (seed C20 round 6): requests for as long as the feed runs, so that some
+ * fall between the feeding thread's critical sections of every frame - a happens-before
+ * detector only sees an unlocked access to the countdown if a request is written between the
+ * feeding thread's previous unlock and its next lock of chswcd_mutex, which one request per
+ * 60 frames (passes A, T) almost never does for the one irregular frame of a configuration. */
+static void A_t3_many(void *arg)
+{
+        (void) arg;
+        for (long n = 0; n < 20000000 && !__atomic_load_n(&t1_done, __ATOMIC_ACQUIRE); n++)
+                vbi_channel_switched(V, 0);
+}
 
 /* LINEARIZATION POINT ORACLE (scheduled runs only).  Under the baton the harness knows the
  * decoder's state at the instant T2 acquires cc.mutex: no other thread is inside a critical
@@ -344,8 +367,44 @@ static void A_t3(void *arg)
  * taking the lock, or copies outside the lock, returns a different page under the
  * schedules that flip or rewrite the buffers in between. */
 static uint64_t lin_expect[16]; static int nlin;
+/* COUNTDOWN STEP ORACLE (scheduled runs only; added for seed C20 round 6, which tested the
+ * countdown in vbi_decode()'s frame dropping branch before taking chswcd_mutex: a request
+ * arriving between test and store was overwritten with 40 and never executed).
+ * The channel switch countdown is only touched inside critical sections of chswcd_mutex, and
+ * under the baton the harness sees the value every section finds ('A') and leaves ('U').
+ * Each section of the feeding thread must be one step of the sequential code on the value it
+ * FOUND: leave it (irregular frame while a countdown or request is pending, inconclusive
+ * header, idle regular frame) | count down by one (regular frame) | clear it (reset executed,
+ * matching Teletext header) | start the 40 frame countdown, only from idle (found 0).  The
+ * requesting thread's section leaves 1.  Between sections the value must not change.
+ * A pending request (found 1) turned into 40 is the lost request; no oracle on WHEN the
+ * reset runs beyond that (a matching header and a reset in progress legitimately cancel). */
+static int cd_left, cd_found, cd_sections, cd_requests;
+static char cd_bad[200]; static int cd_bad_kind;      /* 1 lost request, 2 other step, 3 changed outside */
+static void cd_on_op(int tid, char op)
+{
+        int v = V->chswcd;
+        if (op == 'A') {
+                cd_sections++;
+                if (v != cd_left && !cd_bad_kind) {
+                        cd_bad_kind = 3;
+                        snprintf(cd_bad, sizeof cd_bad, "thread %d found %d, the previous critical section left %d", tid, v, cd_left);
+                }
+                cd_found = v;
+        } else if (op == 'U') {
+                int f = cd_found, ok;
+                if (tid == 2) { ok = v == 1; cd_requests++; }
+                else ok = v == f || (f > 0 && v == f - 1) || v == 0 || (f == 0 && v == 40);
+                if (!ok && !cd_bad_kind) {
+                        cd_bad_kind = (tid == 0 && f == 1 && cd_requests) ? 1 : 2;
+                        snprintf(cd_bad, sizeof cd_bad, "thread %d found %d and left %d", tid, f, v);
+                }
+                cd_left = v;
+        }
+}
 static void A_on_op(int tid, char op, void *m)
 {
+        if (V && m == (void *) &V->chswcd_mutex && (op == 'A' || op == 'U')) cd_on_op(tid, op);
         if (tid == 1 && op == 'A' && V && m == (void *) &V->cc.mutex && nlin < 16) {
                 cc_channel *ch = &V->cc.channel[0];
                 lin_expect[nlin++] = page_hash(ch->pg + (ch->hidden ^ 1));
@@ -364,10 +423,17 @@ static void A_body(void *arg)
         V = new_decoder(); cur_obs = NULL;
         trips = 0; nfetched = 0; t2_fetch_failed = 0; handler_fetch_failed = 0; nlin = 0;
         t1_cd_acq = 0; t1_pages_in_countdown = 0; t1_end_chswcd = 0;
+        cd_left = V->chswcd; cd_found = 0; cd_sections = 0; cd_requests = 0; cd_bad_kind = 0; cd_bad[0] = 0;
         sc_on_op = A_on_op;
         sc_run(3, fns, NULL, 20000);
         sc_on_op = NULL;
         mc_count("transitions", sc_points());
+        mc_count("countdown_sections_checked", cd_sections);
+        if (cd_bad_kind)
+                mc_violation(cd_bad_kind == 1 ? "A: channel switch request lost: the pending request was overwritten by the frame dropping countdown"
+                             : cd_bad_kind == 2 ? "A: critical section of chswcd_mutex changes the countdown as no sequential step does"
+                             : "A: channel switch countdown changed outside chswcd_mutex",
+                             "variant %s: %s; schedule %s | %s", variant_name(), cd_bad, mc_choices_str(), sc_trace());
         if (nlin != nfetched)
                 mc_violation("A: vbi_fetch_cc_page does not take cc.mutex exactly once per fetch", "%d fetches, %d acquisitions by the fetching thread; schedule %s | %s", nfetched, nlin, mc_choices_str(), sc_trace());
         else for (int j = 0; j < nfetched; j++)
@@ -542,10 +608,13 @@ int main(int argc, char **argv)
         int reps = argc > 2 ? atoi(argv[2]) : 10;
         int first = argc > 3 ? atoi(argv[3]) : 0;         /* T: first configuration of this process */
         for (int r = 0; r < reps; r++) {
-                if (which[0] == 'A' || which[0] == 'T') {
-                        sc_thread_fn fns[4] = { A_t1, A_t2, A_t3, A_t2 };
-                        select_variant(which[0] == 'A' ? r & 1 : 2 + (first + r) % NTV);
-                        V = new_decoder(); A_loops = 6; A_fetches = 150; nfetched = 0; trips = 0;
+                if (which[0] == 'A' || which[0] == 'T' || which[0] == 'S') {
+                        sc_thread_fn fns[4] = { A_t1, A_t2, which[0] == 'S' ? A_t3_many : A_t3, A_t2 };
+                        /* S: the irregular timings only (tm = 1 ... NTM-1), header classes in turn */
+                        int k = first + r;
+                        select_variant(which[0] == 'A' ? r & 1 : which[0] == 'T' ? 2 + k % NTV
+                                       : 2 + (k / (NTM - 1)) % NHC * NTM + 1 + k % (NTM - 1));
+                        V = new_decoder(); A_loops = 6; A_fetches = 150; nfetched = 0; trips = 0; t1_done = 0;
                         sc_run_free(3, fns, NULL);
                         vbi_decoder_delete(V); V = NULL;
                 } else {
@@ -563,7 +632,7 @@ int main(int argc, char **argv)
 /* ------------------------------------------------------------------ driver */
 
 static int bound, boundT, nshards;
-static int tsan_base, tsan_T, tsan_skip_T;
+static int tsan_base, tsan_T, tsan_S, tsan_skip_T;
 
 static void A_case(uint64_t idx, void *arg)
 {
@@ -607,7 +676,8 @@ static void ref_case(uint64_t idx, void *arg)
 static void tsan_case(uint64_t idx, void *arg)
 {
         int isT = idx >= (uint64_t) tsan_base;
-        const char *which = isT ? "T" : (idx & 1) ? "B" : "A";
+        int isS = idx >= (uint64_t)(tsan_base + tsan_T);          /* T's configurations, continuous switcher */
+        const char *which = isS ? "S" : isT ? "T" : (idx & 1) ? "B" : "A";
         char bin[600], log[600], reps[16], first[24];
         int nreps = mc_tier == MC_THOROUGH ? 60 : 12;
         if (isT && tsan_skip_T) return;
@@ -615,8 +685,8 @@ static void tsan_case(uint64_t idx, void *arg)
         snprintf(bin, sizeof bin, "%s/bin/C20_tsan", b);
         snprintf(log, sizeof log, "%s/run/C20/tsan.%llu.log", b, (unsigned long long) idx);
         snprintf(reps, sizeof reps, "%d", nreps);
-        snprintf(first, sizeof first, "%d", isT ? (int)((idx - tsan_base) * nreps % NTV) : 0);
-        mc_case(isT ? "T: free running TSan pass" : idx & 1 ? "B: free running TSan pass" : "A: free running TSan pass", "process %llu", (unsigned long long) idx);
+        snprintf(first, sizeof first, "%d", isS ? (int)((idx - tsan_base - tsan_T) * nreps) : isT ? (int)((idx - tsan_base) * nreps % NTV) : 0);
+        mc_case(isS ? "S: free running TSan pass (continuous channel switch requests)" : isT ? "T: free running TSan pass" : idx & 1 ? "B: free running TSan pass" : "A: free running TSan pass", "process %llu", (unsigned long long) idx);
         pid_t p = fork();
         if (p == 0) {
                 int fd = open(log, O_WRONLY | O_CREAT | O_TRUNC, 0666);
@@ -630,7 +700,7 @@ static void tsan_case(uint64_t idx, void *arg)
         if (WIFEXITED(st) && WEXITSTATUS(st) == 0) { unlink(log); return; }
         if (WIFEXITED(st) && WEXITSTATUS(st) == 127) { fprintf(stderr, "cannot exec %s\n", bin); _exit(42); }
         if (WIFSIGNALED(st) && WTERMSIG(st) == SIGALRM) {
-                mc_violation(isT ? "T: free running pass hangs (deadlock)" : idx & 1 ? "B: free running pass hangs (deadlock)" : "A: free running pass hangs (deadlock)", "no progress for 120 s, log %s", log);
+                mc_violation(isS ? "S: free running pass hangs (deadlock)" : isT ? "T: free running pass hangs (deadlock)" : idx & 1 ? "B: free running pass hangs (deadlock)" : "A: free running pass hangs (deadlock)", "no progress for 120 s, log %s", log);
                 return;
         }
         /* summarise: kind of report + the first frame inside /repo of the first two stacks */
@@ -662,15 +732,17 @@ int main(int argc, char **argv)
         nshards = mc_tier == MC_THOROUGH ? 64 : 32;
         tsan_base = mc_tier == MC_THOROUGH ? 32 : 16;
         tsan_T = mc_tier == MC_THOROUGH ? 16 : 8;       /* x 60 / 12 repetitions >= NTV: every configuration once */
+        tsan_S = mc_tier == MC_THOROUGH ? 4 : 8;        /* x 60 / 12 repetitions >= NHC * (NTM - 1): every irregular configuration once */
         mc_meta("level", "model_checking");
         mc_meta("technique", "stateless preemption-bounded exploration of real pthreads under a baton scheduler hooked at pthread_mutex_* (iterative context bounding), plus a separate free-running ThreadSanitizer pass");
-        mc_meta("rule", "every schedule of the 3-thread harness with <= P preemptions at the library's mutex operations is executed to completion (harness T: for every one of the %d input configurations = header class x timing); states = complete schedules executed, transitions = scheduling points executed; distinct = distinct observation vectors (A, T: variant + reset frame + snapshot indices fetched; B: linearization order)", NTV);
+        mc_meta("rule", "every schedule of the 3-thread harness with <= P preemptions at the library's mutex operations is executed to completion (harness T: for every one of the %d input configurations = header class x timing); states = complete schedules executed, transitions = scheduling points executed; distinct = distinct observation vectors (A, T: variant + reset frame + snapshot indices fetched; B: linearization order); A, T in every schedule: each critical section of chswcd_mutex is compared with the sequential steps of the channel switch countdown on the value it found (leave | -1 | clear | 0 -> 40; request -> 1; no change between sections), so a request overwritten by a check made outside the mutex is a violation", NTV);
         mc_meta("bound", "A, B: P=%d preemptions; A0: %d caption frames on field 1, A1: %d frames with an XDS network change on field 2; %d fetches, 1 channel switch; "
                          "T: P=%d preemptions (fewer than A: %d configurations instead of 2), %d frames of one Teletext packet + one caption byte pair, 5 pages of which 2 are completed after the reference header was stored, "
                          "their header in %d classes (equal / different in the same magazine / different in another magazine / parity error / no page number) x timing in %d classes (regular, or one late +0.5 s or early +0.01 s timestamp at any of frames 1...%d), %d fetches, 1 channel switch; "
-                         "B: 3 decodes, 3+2 service operations; free running pass: %d processes x %d repetitions of A, B and T (T: every configuration at least once)",
+                         "B: 3 decodes, 3+2 service operations; free running pass: %d processes x %d repetitions of A, B and T (T: every configuration at least once), "
+                         "plus %d processes x the same repetitions of pass S = T's %d configurations with an irregular timestamp (each at least once), 6 stream repetitions, with the third thread requesting channel switches continuously until the feed ends",
                 bound, N0, N1, A_fetches, boundT, NTV, NT_FRAMES, NHC, NTM, NT_FRAMES - 1, A_fetches,
-                tsan_base + tsan_T, mc_tier == MC_THOROUGH ? 60 : 12);
+                tsan_base + tsan_T, mc_tier == MC_THOROUGH ? 60 : 12, tsan_S, NHC * (NTM - 1));
         mc_meta("assume", "sequential consistency at scheduling points: accesses between two synchronisation operations are atomic under the scheduler; unsynchronised accesses are the business of the free-running TSan pass, which is a sample of OS schedules (not exhaustive)");
         mc_meta("assume", "A's and T's snapshot oracles observe CC page 1 only; T does not compare Teletext pages or events (the property states no oracle for them), it checks that the threads terminate under every schedule and the caption oracles");
         mc_meta("assume", "T: the date transition flavour of an inconclusive Teletext header is not generated (same_header() reads it outside the 40 byte header)");
@@ -685,7 +757,7 @@ int main(int argc, char **argv)
         /* a feed that deadlocks by itself would only make the free running T processes sit out their alarm */
         tsan_skip_T = ref_failed;
         if (tsan_skip_T) mc_not_exhaustive("free running T pass skipped: the sequential reference run already fails");
-        mc_pool("tsan-free", tsan_base + tsan_T, tsan_case, NULL, 300);
+        mc_pool("tsan-free", tsan_base + tsan_T + tsan_S, tsan_case, NULL, 300);
         return mc_finish();
 }
 #endif
